@@ -1770,8 +1770,13 @@ class RepeatingEngine(Engine):
                 # By default assume new output - only check if requested
                 isNewOutput = True
 
+                # VV: Find out whether producers have finished BEFORE checking for their outputs. If the notification
+                # arrives after the output check the engine could otherwise conclude that its producers are done
+                # without ever looking at the output they produced right before they finished.
+                producers_done_when_i_started = self._producers_are_finished
+
                 if checkProducerOutput:
-                    if not self._producers_are_finished:
+                    if not producers_done_when_i_started:
                         isNewOutput = self.job.producersHaveOutputSinceDate(self.lastLaunched)
                     else:
                         time_waiting = (datetime.datetime.now() - self.lastLaunched).total_seconds()
@@ -1784,8 +1789,7 @@ class RepeatingEngine(Engine):
                             self.log.log(19, "All of my producers are done but I am checking their outputs")
                             isNewOutput = self.job.producersHaveOutputSinceDate(self.lastLaunched)
 
-                # VV: Find out whether producers have finished, then record launch-time
-                producers_done_when_i_started = self._producers_are_finished
+                # VV: Record launch-time
                 launch_time = datetime.datetime.now()
                 self._stateDict['lastKernelLaunchDate'] = launch_time
 
